@@ -8,7 +8,7 @@
 (*  [ev |-> "case", outcome]    one multi-line text                        *)
 (***************************************************************************)
 EXTENDS Json, IOUtils, Integers, Sequences, FiniteSets, TLC
-A == INSTANCE Api WITH Threads <- {}, Programs <- {}, Alone <- << >>, running <- 0, done <- 0
+A == INSTANCE Api WITH Threads <- {}, Programs <- {}, Alone <- << >>, running <- 0, done <- 0, env <- 0
 Rec_ == ndJsonDeserialize(IOEnv.TRACE)
 VARIABLES l, nbad
 vars == <<l, nbad>>
